@@ -3967,7 +3967,12 @@ def inline_temps(tree, path, ref_locals):
                 if not uses:
                     continue
                 alias = _stable_chain(st.value, unstable, fn, tree, st) and not any(isinstance(n, ast.Name) and n.id in _stores(fn) for n in ast.walk(st.value))
-                if not alias and isinstance(st.value, ast.Attribute) and isinstance(st.value.value, ast.Name) and st.value.value.id == 'self' and st.value.attr.startswith('_'):
+                priv = st.value
+                tail_ok = True
+                while isinstance(priv, ast.Attribute) and isinstance(priv.value, ast.Attribute):
+                    tail_ok = tail_ok and unstable is not None and priv.attr not in unstable          # further links of the chain: never re-bound anywhere
+                    priv = priv.value
+                if not alias and tail_ok and isinstance(priv, ast.Attribute) and isinstance(priv.value, ast.Name) and priv.value.id == 'self' and priv.attr.startswith('_'):
                     # a private attribute of self read once and used for a while: the same as reading it at each use when nothing
                     # between the binding and the last use (in this block) can re-bind it
                     idxs = [k for k in range(i + 1, len(block)) if any(u is x for u in uses for x in ast.walk(block[k]))]
@@ -3978,7 +3983,10 @@ def inline_temps(tree, path, ref_locals):
                         if not isinstance(last, (ast.If, ast.For, ast.While, ast.Try, ast.With)) or all(any(u is x for root in _stmt_exprs(last) for x in ast.walk(root)) or
                                                                                                           not any(u is x for x in ast.walk(last)) for u in uses):
                             alias = _quiet_span(tree, fn, span + ([ast.Expr(value=r) for r in _stmt_exprs(last)] if isinstance(last, (ast.If, ast.For, ast.While)) else []),
-                                                st.value.attr) and not _has_loose_loop(fn, block)
+                                                priv.attr) and not _has_loose_loop(fn, block)
+                        else:
+                            # uses inside the body of the last (compound) statement: the whole statement must be quiet
+                            alias = _quiet_span(tree, fn, span + [last], priv.attr) and not _has_loose_loop(fn, block)
                 reads_self = not alias and any(isinstance(n, ast.Attribute) and isinstance(n.value, ast.Name) and n.value.id == 'self' for n in ast.walk(st.value))
                 if len(uses) > 1 and _creates_object(st.value):
                     continue            # two uses of one list / iterator / array are two views of ONE object: writing the expression twice makes two
